@@ -622,8 +622,10 @@ CPB_descr_get(CPB* self, PyObject* inst, PyObject* cls)
 {
     PyObject* implements;
 
-    if (self->_cls == NULL)
+    if (self->_cls == NULL) {
+        PyErr_SetString(PyExc_AttributeError, "_cls");
         return NULL;
+    }
 
     if (cls == self->_cls) {
         if (inst == NULL) {
@@ -632,7 +634,11 @@ CPB_descr_get(CPB* self, PyObject* inst, PyObject* cls)
         }
 
         implements = self->_implements;
-        Py_XINCREF(implements);
+        if (implements == NULL) {
+            PyErr_SetString(PyExc_AttributeError, "_implements");
+            return NULL;
+        }
+        Py_INCREF(implements);
         return implements;
     }
 
@@ -953,8 +959,14 @@ IB__hash__(IB* self)
     if (!tuple) {
         return -1;
     }
-    self->_v_cached_hash = PyObject_Hash(tuple);
-    Py_CLEAR(tuple);
+    {
+        /* Do not remember a failure: -1 is not a hash value. */
+        Py_hash_t hash = PyObject_Hash(tuple);
+        Py_CLEAR(tuple);
+        if (hash == -1)
+            return -1;
+        self->_v_cached_hash = hash;
+    }
     return self->_v_cached_hash;
 }
 
